@@ -326,6 +326,17 @@ def judge_discover_text(rec, rnd, tmp, k):
             rec.violation('discover-text-total-differs', f'{n} distinct unknown descriptions, --limit {lim}: header says {got_n} transactions, ${got_t}; '
                           f'tally up leaves {len(rows) - 1} transactions totalling {total:.2f} Unknown', case)
         rec.interesting(['dt', n, lim])
+        # "--limit 0" means ALL: the JSON listing then holds every one of the n descriptions, with every transaction
+        pj = B.tally(root, 'discover', os.path.join(root, 'config'), '--format', 'json', rnd.choice(['--limit', '-n']), '0')
+        rec.count('cli_runs')
+        try:
+            D = json.loads(pj.stdout[pj.stdout.index('['):])
+        except Exception:
+            D = None
+        rec.count('discover_unlimited_listing_checks')
+        if D is None or len(D) != n or sum(x['count'] for x in D) != len(rows) - 1:
+            rec.violation('discover-unlimited-listing-incomplete', f'{n} distinct unknown descriptions, {len(rows) - 1} transactions; discover --limit 0 --format json lists '
+                          f'{None if D is None else len(D)} descriptions / {None if D is None else sum(x["count"] for x in D)} transactions', case)
     finally:
         shutil.rmtree(root, ignore_errors=True)
 
